@@ -17,7 +17,9 @@ RULE = ("model framer (proved legal) and harness framer agree (framer-tie); libr
         "non-trivial = distinct cases on which library = model and the direct predicate holds")
 TRUSTED = [
     "model files: coq/theories/Frame/Framing.v; theorems coq/theories/Props/C17.v",
-    "modelled rather than verified: PacketLength / PacketHeader parse+write, PacketBodyReader (as the function deframe; its 8 KiB buffering is exercised through schedules, not modelled), the three partial-body emitters (as emit_partial), LiteralDataFixedGenerator (emit_fixed)",
+    "model files also Frame/BodyReader.v (PacketBodyReader as a state machine: 8 KiB buffer, Take-limited source, partial lengths) and Frame/PartialWriter.v (LiteralDataPartialGenerator as a staged producer), "
+    "proved equal to deframe / emit_partial for every sequence of consumer request sizes; the model driver runs machine and specification and compares each with the library",
+    "modelled rather than verified: PacketLength / PacketHeader parse+write, PacketBodyReader and LiteralDataPartialGenerator (Gallina transcriptions tied by the differential run), the compressed / encrypted partial-body emitters (as emit_partial only), LiteralDataFixedGenerator (emit_fixed)",
     "not modelled: malformed-artifact-compat feature; PacketParser's skipping of incomplete packets",
 ]
 ASSUMPTIONS = ["bodies above 90000 octets and partial chunks above 2^16 are not materialised (declared-huge chunks over short input are)"]
